@@ -15,8 +15,12 @@ func defaultClockRate(mimeType string) uint32 {
 		"audio/pcma": 8000,
 	}
 
-	if def, ok := defaults[strings.ToLower(mimeType)]; ok {
-		return def
+	// mime types are compared with strings.EqualFold everywhere else; use the
+	// same folding here so that both sides of a match see the same defaults
+	for mime, def := range defaults {
+		if strings.EqualFold(mime, mimeType) {
+			return def
+		}
 	}
 
 	return 90000
@@ -27,8 +31,10 @@ func defaultChannels(mimeType string) uint16 {
 		"audio/opus": 2,
 	}
 
-	if def, ok := defaults[strings.ToLower(mimeType)]; ok {
-		return def
+	for mime, def := range defaults {
+		if strings.EqualFold(mime, mimeType) {
+			return def
+		}
 	}
 
 	return 0
